@@ -283,6 +283,15 @@ func anyCaseClash(ns *models.Namespace) bool {
 	return false
 }
 
+func paddedSliceName(ns *models.Namespace) bool {
+	for _, s := range ns.Slices {
+		if strings.TrimSpace(s.Name) != s.Name {
+			return true
+		}
+	}
+	return false
+}
+
 // classify maps a failure to the id of the known finding whose root cause it
 // matches (narrowly), or "".
 func classify(ns *models.Namespace, f failure) string {
@@ -294,6 +303,11 @@ func classify(ns *models.Namespace, f failure) string {
 		return "C10-F3"
 	case (f.kind == "rule_replaced" || f.kind == "rule_missing" || f.kind == "linked") && f.rule >= 0 && caseClash(ns, f.rule):
 		return "C10-F3"
+	case f.kind == "load_namespace" && paddedSliceName(ns) && (strings.Contains(f.detail, "not in the slice list") ||
+		strings.Contains(f.detail, "not in the namespace.slices list") || strings.Contains(f.detail, "duplicate slice [")):
+		return "C10-F7"
+	case f.kind == "load_namespace" && ns.DownAfterNoAlive < 0 && strings.Contains(f.detail, "downAfterNoAlive should be greater than 0"):
+		return "C10-F8"
 	case f.kind == "load_namespace" && strings.Contains(f.detail, "parse defaultPhyDBs error") && len(ns.DefaultPhyDBS) > 0:
 		for _, r := range ns.ShardRules {
 			if !isMycat(r.Type) && r.Type != models.ShardGlobal {
